@@ -782,6 +782,18 @@ def bitset_primitives(P, R, rule):
         n += 1
         R.ob(rule, ok and same_ix, f, '%s combines its operands as %s (computes %s)' % (name, 'in1 & ~in2' if neg2 else 'in1 %s in2' % op, sx(x)), key='bitset:%s' % name)
     R.floor(rule, 3, 'word-wise set operations')
+    # primitives that ADD bits (the ones called ..._set...) keep what is already in the word: every store they make into
+    # the set is an `|=` (a helper that assigns a freshly built mask wipes the bits an earlier call put there)
+    un = (P.fn('bitset_or') or P.fn('bitset_and'))
+    if un is not None:
+        for f in P.unit_fns(un.unit):
+            if '_set' not in f.name or not f.params:
+                continue
+            setp = f.params[0]
+            for s in f.stores():
+                l = s.ev.get('lhs') or {}
+                if s.ev['k'] == 'store' and l.get('k') in ('idx', 'un') and root_var(l) is not None and is_var(root_var(l), setp):
+                    R.ob(rule, s.ev.get('op') == '|=', s, '%s adds bits to the word it touches (store operator %s)' % (f.name, s.ev.get('op')), key='bitset-adds:%s' % f.name)
     bitset_domains(P, R, rule)
 
 
